@@ -67,7 +67,7 @@ CHECKS.update({
             "DESIGN.md 4/C05"),
     "C18": ("exploration",
             "exhaustive enumeration of column-token sequences (valid and invalid) x date formats x templates x spellings against a reference mapper; exhaustive header rows x date styles through the real inspect command with round-trip oracle",
-            "All 11k (quick) / 111k (thorough) token sequences x 3 date formats x 4 templates x 4 spellings must be parsed to exactly the reference positions/date format/sign mode or rejected (accepted strings are parsed twice; arrangements with a duplicate are also tried under every upper/lower-case mask); "
+            "All 11k (quick) / 111k (thorough) token sequences x 4 date formats (one with a time and %z) x 4 templates x 4 spellings must be parsed to exactly the reference positions/date format/sign mode or rejected (accepted strings are parsed twice; arrangements with a duplicate are also tried under every upper/lower-case mask); "
             "for every header row of <=4/5 cells over 18 header texts (x5 data date styles), plus a 5-column family with every ordered pair of further headers, on which `tally inspect` prints a suggestion, parse_format_string must accept it and select the "
             "date/description/amount columns inspect reported.",
             "arrangements with {description} plus a satisfiable template are not judged; inspect run in-process",
